@@ -829,16 +829,17 @@ def select__schema_attribute_kind_test(self: XPathFunction, context: ta.ContextT
     attribute_name = self[0].source
     qname = get_expanded_name(attribute_name, self.parser.namespaces)
 
-    for _ in context.iter_children_or_self():
-        if self.parser.schema is None:
-            break
+    if self.parser.schema is not None:
+        matched = False
+        for item in context.iter_children_or_self():
+            if self.parser.schema.get_attribute(qname) is None:
+                raise self.error('XPST0008', "attribute %r not found in schema" % attribute_name)
 
-        if self.parser.schema.get_attribute(qname) is None:
-            raise self.error('XPST0008', "attribute %r not found in schema" % attribute_name)
-
-        if isinstance(context.item, AttributeNode) and context.item.match_name(qname):
-            yield context.item
-            return
+            if isinstance(item, AttributeNode) and item.match_name(qname):
+                matched = True
+                yield item  # the iteration restores the context when it ends
+        if matched or context.axis == 'attribute':
+            return  # no match on an attribute step is an empty result, not an error
 
     if not isinstance(context, XPathSchemaContext):
         raise self.error('XPST0008', 'schema attribute %r not found' % attribute_name)
